@@ -17,7 +17,7 @@ INFO = {
 
 def check_design(case):
     import hdl21 as h
-    from rtc.meaning import meaning, package_meaning, compare, InvalidDesign, Unsupported as OracleUnsupported
+    from rtc.meaning import meaning, package_meaning, compare, InvalidDesign, InvalidPackage, Unsupported as OracleUnsupported
     desc, build = case
     top = build()
     try:
@@ -31,10 +31,44 @@ def check_design(case):
     except Exception as e:
         return (f"to_proto.raises/{desc.split('/')[0]}", f"valid design {desc} rejected: {type(e).__name__}: {str(e)[-160:]}",
                 {"design": desc})
-    got = package_meaning(pkg, top.name)
+    try:
+        got = package_meaning(pkg, top.name)
+    except InvalidPackage as e:
+        return (f"to_proto.post.meaning/{desc.split('/')[0]}", f"{desc}: the exported package is not a circuit: {str(e)[:240]}",
+                {"design": desc})
     diff = compare(want, got)
     if diff:
         return (f"to_proto.post.meaning/{desc.split('/')[0]}", f"{desc}: {diff[0][:300]}", {"design": desc})
+    return None
+
+
+def name_pressure_designs():
+    """designs whose declared names equal, or compose to, the names elaboration invents (the family of C05): the
+    connectivity as written must survive the renaming"""
+    from props import c05
+    for desc, b in c05.adversarial_designs():
+        yield ("names/" + desc, b)
+
+
+def check_named(case):
+    import hdl21 as h
+    desc, build = case
+    top = build()
+    from rtc.meaning import meaning, package_meaning, compare, InvalidPackage
+    want = meaning(top)
+    try:
+        pkg = h.to_proto(top)
+    except RuntimeError:
+        return None        # refusing a name clash is C05's business; nothing is exported, nothing can differ
+    except Exception as e:
+        return ("to_proto.raises/names", f"design {desc} rejected: {type(e).__name__}: {str(e)[-160:]}", {"design": desc})
+    try:
+        got = package_meaning(pkg, top.name)
+    except InvalidPackage as e:
+        return ("to_proto.post.meaning/names", f"{desc}: the exported package is not a circuit: {str(e)[:240]}", {"design": desc})
+    diff = compare(want, got)
+    if diff:
+        return ("to_proto.post.meaning/names", f"{desc}: {diff[0][:300]}", {"design": desc})
     return None
 
 
@@ -184,6 +218,11 @@ def run(ctx):
         lambda c: check_design(c),
         rule=RULE + "; plus 60 designs written in several steps (a port re-connected by each of the five operations) and 40 declaration orders of a reference chain ending on slices / concatenations of a driver's ports", bound="depth<=3, widths<=4 (8 thorough), <=4 (6) instances per module",
         key_of=lambda c: c[0], nontrivial=lambda c: nontrivial(c[0]))
+    ctx.run_bounded("to_proto-vs-meaning under name pressure", name_pressure_designs(), check_named,
+                    rule="the designs of C05's adversarial-name family (declared names equal to invented ones in both "
+                         "orders; bundle members and implicit signals composing to one flat name, also on a child's "
+                         "bundle port): when a package is exported its meaning equals the design's",
+                    bound="38 designs", key_of=lambda c: c[0])
     return INFO
 
 
@@ -194,6 +233,11 @@ def replay(payload):
         for desc, b in list(edited_designs()) + list(order_designs()):
             if desc == want:
                 r = check_design((desc, b))
+                print("replay:", r)
+                return 1 if r else 0
+        for desc, b in name_pressure_designs():
+            if desc == want:
+                r = check_named((desc, b))
                 print("replay:", r)
                 return 1 if r else 0
         for tier in ("quick", "thorough"):
